@@ -109,6 +109,29 @@ fn function_trivia_contains_comments(trivia: &Token) -> bool {
         || matches!(trivia.token_type(), TokenType::MultiLineComment { comment, .. } if comment.as_str().lines().count() > 1 )
 }
 
+/// Whether the argument will end with a single line comment once it is formatted, although its last token does not
+/// carry one: redundant parentheses around (the end of) the argument are removed, and the comments inside them stay.
+fn argument_uncovers_trailing_comment(expression: &Expression) -> bool {
+    match expression {
+        Expression::Parentheses {
+            contained,
+            expression,
+        } => {
+            contained
+                .tokens()
+                .1
+                .has_leading_comments(CommentSearch::Single)
+                || expression.has_trailing_comments(CommentSearch::Single)
+                || argument_uncovers_trailing_comment(expression)
+        }
+        Expression::UnaryOperator { expression, .. } => {
+            argument_uncovers_trailing_comment(expression)
+        }
+        Expression::BinaryOperator { rhs, .. } => argument_uncovers_trailing_comment(rhs),
+        _ => false,
+    }
+}
+
 /// Determines whether a parenthesised function call contains comments, forcing it to go multiline
 fn function_args_contains_comments(
     parentheses: &ContainedSpan,
@@ -127,6 +150,8 @@ fn function_args_contains_comments(
                 .iter()
                 .chain(argument.value().trailing_trivia().iter())
                 .any(function_trivia_contains_comments)
+            // Comments left at the end of the argument when redundant parentheses are removed
+            || argument_uncovers_trailing_comment(argument.value())
             // Punctuation contains comments
             || argument
                 .punctuation()
@@ -1242,7 +1267,18 @@ pub fn format_method_call(
     shape: Shape,
     call_next_node: FunctionCallNextNode,
 ) -> MethodCall {
-    let function_call_trivia = vec![create_function_call_trivia(ctx)];
+    // If a single line comment follows the method name, the arguments can not stay on the same line
+    let function_call_trivia = if method_call
+        .name()
+        .has_trailing_comments(CommentSearch::Single)
+    {
+        vec![
+            create_newline_trivia(ctx),
+            create_indent_trivia(ctx, shape.increment_additional_indent()),
+        ]
+    } else {
+        vec![create_function_call_trivia(ctx)]
+    };
 
     let (colon_token, name) =
         process_dot_name(ctx, method_call.colon_token(), method_call.name(), shape);
